@@ -104,7 +104,7 @@ func (p *Prog) describeCreator(v ssa.Value, depth int) []creatorAlt {
 			// local closure (IIFE): alternatives per return, with the return's guards
 			var out []creatorAlt
 			for _, ret := range returnsOf(callee) {
-				for _, alt := range p.describeCreator(ret.Results[0], depth+1) {
+				for _, alt := range p.describeCreator(retResult(ret, 0), depth+1) {
 					alt.cond = append(alt.cond, guardsOf(ret.Block())...)
 					if alt.where == nil {
 						alt.where = ret
@@ -117,13 +117,13 @@ func (p *Prog) describeCreator(v ssa.Value, depth int) []creatorAlt {
 		// named function/method returning a creator closure that yields nil on all paths
 		allPhony := true
 		for _, ret := range returnsOf(callee) {
-			lit := funcLiteral(ret.Results[0])
+			lit := funcLiteral(retResult(ret, 0))
 			if lit == nil {
 				allPhony = false
 				break
 			}
 			for _, r2 := range returnsOf(lit) {
-				if !isNilConst(r2.Results[0]) {
+				if !isNilConst(retResult(r2, 0)) {
 					allPhony = false
 				}
 			}
@@ -404,7 +404,7 @@ func ruleP17StopFallback(p *Prog, r *Report) {
 	wa := p.method("klog/app/cli/util", "AtDateAndTimeArgs", "WasAutomatic")
 	if r.anchorFn(rule, wa, "WasAutomatic") {
 		for i, ret := range returnsOf(wa) {
-			alts, ok := truthAlts(ret.Results[0], 0)
+			alts, ok := truthAlts(retResult(ret, 0), 0)
 			good := ok && len(alts) > 0
 			for _, alt := range alts {
 				hasDate, hasTime := false, false
@@ -464,7 +464,7 @@ func returnedReconcilerCalls(f *ssa.Function) ([]recCall, []*ssa.Return) {
 		if len(ret.Results) != 1 {
 			continue
 		}
-		name, recv, args, c := methodCall(ret.Results[0])
+		name, recv, args, c := methodCall(retResult(ret, 0))
 		if c != nil && len(f.Params) > 0 && strip(recv) == ssa.Value(f.Params[0]) && typeNameOf(recv.Type()) == "Reconciler" {
 			out = append(out, recCall{name, args, c, ret})
 		} else {
@@ -517,7 +517,7 @@ func ruleP04Steps(p *Prog, r *Report) {
 	// every non-step return of a closure must be a non-nil error (an early failure)
 	failing := func(name string, f *ssa.Function, others []*ssa.Return) {
 		for i, ret := range others {
-			r.check(p.nilnessAt(ret.Block(), ret.Results[0], 0) == nnNonNil, rule, fmt.Sprintf("%s:%s:early-return#%d", name, fnName(f), i), p.instrPos(ret), "a return without a reconciler step is a failure", "a step closure may return nil without having applied its step")
+			r.check(p.nilnessAt(ret.Block(), retResult(ret, 0), 0) == nnNonNil, rule, fmt.Sprintf("%s:%s:early-return#%d", name, fnName(f), i), p.instrPos(ret), "a return without a reconciler step is a failure", "a step closure may return nil without having applied its step")
 		}
 	}
 	for _, name := range []string{"Track", "Start", "Stop", "Switch"} {
@@ -653,7 +653,7 @@ func ruleP04PauseArith(p *Prog, r *Report) {
 	// diffInMinutes(a, b) = (a.Unix() - b.Unix()) / 60
 	for _, ret := range returnsOf(diff) {
 		ok := false
-		v := strip(ret.Results[0])
+		v := strip(retResult(ret, 0))
 		if cv, isConv := v.(*ssa.Convert); isConv {
 			v = cv.X
 		}
@@ -862,7 +862,7 @@ func ruleP04Reject(p *Prog, r *Report) {
 			msg = "the rejecting edge is shared"
 		} else {
 			msg = rejectComplete(rej, func(ret *ssa.Return) string {
-				if p.nilnessAt(ret.Block(), ret.Results[0], 0) != nnNonNil {
+				if p.nilnessAt(ret.Block(), retResult(ret, 0), 0) != nnNonNil {
 					return "returns nil on the rejecting edge"
 				}
 				return ""
